@@ -11,7 +11,7 @@
    ([KOob]) and an unwritten (np.empty) tail remains iff it is shorter ([KTail]).
    `while` loops whose progress is not evident run on explicit fuel ([KFuel]). *)
 From Coq Require Import ZArith List Bool.
-From Verif Require Import Py Shape COO GCXS.
+From Verif Require Import Py PyExt Shape COO GCXS G_dot NpDot.
 Import ListNotations.
 Open Scope Z_scope.
 
@@ -312,3 +312,92 @@ Definition rkind_matches (rt : rtype) (o : rkind) : bool :=
   | RNd, ONd => true
   | _, _ => false
   end.
+
+(* ---------------------------------------------------------------------- dot(a, b): routing *)
+(* the decisions of `dot` are the generated fragment g_dot (Gen/G_dot.v): the 1-d . 1-d path
+   (after the length check) or tensordot with the chosen contraction axes *)
+Inductive dot_path := Path1d | PathTensordot (a_axis b_axis : Z).
+
+Definition dot_route (a_ndim b_ndim a_len b_len : Z) : res dot_path :=
+  match g_dot VNone VNone (VInt a_ndim) (VInt b_ndim) (VInt a_len) (VInt b_len) with
+  | Ok (VTuple [VInt 0; _; _]) => Ok Path1d
+  | Ok (VTuple [VInt 1; VInt x; VInt y]) => Ok (PathTensordot x y)
+  | Ok _ => Raise OtherError
+  | Raise e => Raise e
+  end.
+
+Section DotTop.
+  Variable V : Type.
+  Variable vzero : V.
+  Variable vadd vmul : V -> V -> V.
+
+  (* dot of two 1-d operands: `(a * b).sum()` on equal shapes *)
+  Definition dot_1d (a b : list V) : res V :=
+    match dot_route 1 1 (Z.of_nat (length a)) (Z.of_nat (length b)) with
+    | Ok Path1d => Ok (vsum V vzero vadd (zip_mul V vmul a b))
+    | Ok _ => Raise OtherError
+    | Raise e => Raise e
+    end.
+
+  (* ------------------------------------------------------------------ tensordot: bookkeeping *)
+  Definition norm_axis (nd ax : Z) : Z := if ax <? 0 then ax + nd else ax.
+
+  (* tuple[ax] with Python's negative indices *)
+  Definition py_index (sh : shape) (ax : Z) : res Z :=
+    let nd := Z.of_nat (length sh) in
+    if (ax <? - nd) || (nd <=? ax) then Raise IndexError else Ok (nthZ sh (norm_axis nd ax)).
+
+  (* for k in range(na): if as_[axes_a[k]] != bs[axes_b[k]]: equal = False; break
+                         if axes_a[k] < 0: axes_a[k] += nda;  if axes_b[k] < 0: axes_b[k] += ndb
+     None: a mismatch was found (ValueError "shape-mismatch for sum") *)
+  Fixpoint td_match (as_ bs : shape) (axes_a axes_b : list Z) : res (option (list Z * list Z)) :=
+    match axes_a, axes_b with
+    | x :: ra, y :: rb =>
+      ea <- py_index as_ x ;;
+      eb <- py_index bs y ;;
+      if negb (ea =? eb) then Ok None
+      else
+        r <- td_match as_ bs ra rb ;;
+        Ok (match r with
+            | Some (la, lb) => Some (norm_axis (Z.of_nat (length as_)) x :: la, norm_axis (Z.of_nat (length bs)) y :: lb)
+            | None => None end)
+    | _, _ => Ok (Some ([], []))
+    end.
+
+  (* N2 = 1; for axis in axes: N2 *= shape[axis] *)
+  Definition td_prod (sh : shape) (axes : list Z) : Z := fold_left (fun acc ax => acc * nthZ sh ax) axes 1.
+
+  (* builtins.any(dim == 0 for dim in chain(newshape_a, newshape_b)) with newshape_a = (-1, N2a),
+     newshape_b = (N2b, -1): only the CONTRACTED extent is tested *)
+  Definition td_shortcut (N2a N2b : Z) : bool := existsb (fun d => d =? 0) [-1; N2a; N2b; -1].
+
+  (* tensordot on the dense meaning of the operands (their transposes/reshapes are C08's subject);
+     operands with ndim >= 1, axes given as two lists *)
+  Definition tensordot_m (a b : arr V) (axes_a axes_b : list Z) : res (arr V) :=
+    let as_ := a_shape a in
+    let bs := a_shape b in
+    if (Z.of_nat (length as_) =? 0) || (Z.of_nat (length bs) =? 0) then Raise NotImplementedError
+    else if negb (length axes_a =? length axes_b)%nat then Raise ValueError
+    else
+      m <- td_match as_ bs axes_a axes_b ;;
+      match m with
+      | None => Raise ValueError
+      | Some (axa, axb) =>
+        let notin_a := free_axes (length as_) axa in
+        let newaxes_a := notin_a ++ axa in
+        let N2a := td_prod as_ axa in
+        let olda := map (nthZ as_) notin_a in
+        let notin_b := free_axes (length bs) axb in
+        let newaxes_b := axb ++ notin_b in
+        let N2b := td_prod bs axb in
+        let oldb := map (nthZ bs) notin_b in
+        if td_shortcut N2a N2b then Ok (mkArr (olda ++ oldb) (fun _ => vzero))
+        else
+          let M := size as_ / N2a in            (* reshape((-1, N2a)) *)
+          let P := size bs / N2b in             (* reshape((N2b, -1)) *)
+          let at_ := np_reshape V [M; N2a] (np_transpose V newaxes_a a) in
+          let bt := np_reshape V [N2b; P] (np_transpose V newaxes_b b) in
+          let res := arr_of_mat V vzero M P (np_matmul2 V vzero vadd vmul N2a (mat_of V at_) (mat_of V bt)) in
+          Ok (np_reshape V (olda ++ oldb) res)
+      end.
+End DotTop.
